@@ -2,8 +2,8 @@
 (* Recorded Agc runs (averaging length 1, constant-magnitude input per frame) against the loop of AgcLoop.tla.           *)
 (*   AgcNew   {unit, target, gmax, rr, rf, g0}     a new Agc: ln target power, ln gain limit, reciprocal step sizes     *)
 (*   AgcFrame {lp, n, gend}                        n samples at ln-power lp; ln of the gain applied to the last one     *)
-(* TLC steps the fixed-point loop n times per frame from ITS OWN state (the library's value is only compared, never      *)
-(* adopted) and accepts the frame if the library's gain is within Tol units.  Where the error is within Slack of the     *)
+(* TLC steps the fixed-point loop n times per frame from ITS OWN state (the library's value is only compared, adopted      *)
+(* once, at the end of an object's first segment) and accepts the frame if the library's gain is within Tol units.  Where the error is within Slack of the     *)
 (* rise/fall boundary (1 neper) either step size is allowed; the model state is then whichever explains the frame.       *)
 EXTENDS AgcStep, TLC, Json, IOUtils, FiniteSets, SequencesExt
 Log == ndJsonDeserialize(IOEnv.TRACE)
@@ -21,15 +21,19 @@ StepSet(x, lpw) ==
 (* n samples from any state of G (FoldLeft is evaluated iteratively by TLC's Java override: no deep recursion) *)
 RunSet(G, lpw, n) == FoldLeft(LAMBDA acc, i : UNION {StepSet(x, lpw) : x \in acc}, G, [i \in 1..n |-> i])
 
-Init == TLCSet(1, 0) /\ par = [unit |-> 1] /\ gm = 0 /\ l = 1
+Init == TLCSet(1, 0) /\ par = [unit |-> 1, fresh |-> TRUE] /\ gm = 0 /\ l = 1
 TNew == /\ Ev.e = "AgcNew"
         /\ Ev.rr >= 3 /\ Ev.rf >= 3
-        /\ par' = [unit |-> Ev.unit, target |-> Ev.target, gmax |-> Ev.gmax, rr |-> Ev.rr, rf |-> Ev.rf]
+        /\ par' = [unit |-> Ev.unit, target |-> Ev.target, gmax |-> Ev.gmax, rr |-> Ev.rr, rf |-> Ev.rf, fresh |-> TRUE]
         /\ gm' = Ev.g0
+(* the gain a new object starts from is not specified anywhere: the first segment only has to respect the limit, and the    *)
+(* model takes over the library's state at its end; from then on the model runs on its own                                *)
 TFrame == /\ Ev.e = "AgcFrame"
           /\ Ev.gend <= par.gmax + Tol                       \* the applied gain never exceeds the limit
-          /\ \E m \in RunSet({gm}, Ev.lp, Ev.n) : Abs(Ev.gend - m) <= Tol /\ gm' = m
-          /\ UNCHANGED par
+          /\ IF par.fresh
+             THEN gm' = Min(Ev.gend, par.gmax) /\ par' = [par EXCEPT !.fresh = FALSE]
+             ELSE /\ \E m \in RunSet({gm}, Ev.lp, Ev.n) : Abs(Ev.gend - m) <= Tol /\ gm' = m
+                  /\ UNCHANGED par
 Next == /\ l <= Len(Log)
          /\ (TNew \/ TFrame)
          /\ l' = l + 1
